@@ -93,6 +93,12 @@ pub enum P {
     Manual(Box<P>),
     /// async: task: req a; then abort handle of the sibling sub-program p (hosted via all)
     SiblingAbort(S, Box<P>),
+    /// async: one task does `join(req a, drive the nested command p by hand through its public Stream
+    /// impl)`; event(a) when both are through. The nested command's events are passed on with
+    /// `ctx.send_event`, its effects reach the shell through a channel of the program's own (there is no
+    /// public way to forward an effect). A hosting task that has *another* wake source besides the
+    /// command it hosts. Command-level hosts only.
+    JoinHosted(S, Box<P>),
     /// async: two handles to one child: spawn(child: req a->event); join(jh.clone(), jh); event m
     JoinTwice(S, S),
     Then(Box<P>, Box<P>),
@@ -120,7 +126,7 @@ impl P {
     /// number of DSL nodes
     pub fn size(&self) -> usize {
         match self {
-            P::Trigger(_, p) | P::Manual(p) | P::SiblingAbort(_, p) | P::MapEffect(p) | P::MapEvent(p)
+            P::Trigger(_, p) | P::Manual(p) | P::SiblingAbort(_, p) | P::JoinHosted(_, p) | P::MapEffect(p) | P::MapEvent(p)
             | P::FromInto(p) | P::Abortable(_, p) | P::Legacy(p) => 1 + p.size(),
             P::Then(a, b) | P::And(a, b) => 1 + a.size() + b.size(),
             P::All(v) => 1 + v.iter().map(P::size).sum::<usize>(),
@@ -130,7 +136,7 @@ impl P {
 
     pub fn children_mut(&mut self) -> Vec<&mut P> {
         match self {
-            P::Trigger(_, p) | P::Manual(p) | P::SiblingAbort(_, p) | P::MapEffect(p) | P::MapEvent(p)
+            P::Trigger(_, p) | P::Manual(p) | P::SiblingAbort(_, p) | P::JoinHosted(_, p) | P::MapEffect(p) | P::MapEvent(p)
             | P::FromInto(p) | P::Abortable(_, p) | P::Legacy(p) => vec![p.as_mut()],
             P::Then(a, b) | P::And(a, b) => vec![a.as_mut(), b.as_mut()],
             P::All(v) => v.iter_mut().collect(),
@@ -140,7 +146,7 @@ impl P {
 
     pub fn children(&self) -> Vec<&P> {
         match self {
-            P::Trigger(_, p) | P::Manual(p) | P::SiblingAbort(_, p) | P::MapEffect(p) | P::MapEvent(p)
+            P::Trigger(_, p) | P::Manual(p) | P::SiblingAbort(_, p) | P::JoinHosted(_, p) | P::MapEffect(p) | P::MapEvent(p)
             | P::FromInto(p) | P::Abortable(_, p) | P::Legacy(p) => vec![p.as_ref()],
             P::Then(a, b) | P::And(a, b) => vec![a.as_ref(), b.as_ref()],
             P::All(v) => v.iter().collect(),
@@ -151,7 +157,7 @@ impl P {
     pub fn sites_mut(&mut self) -> Vec<&mut S> {
         match self {
             P::Event(a) | P::Notify(a) | P::Req(a) | P::Stream(a) | P::ReqMap(a) | P::StreamMap(a) | P::QuietSelfAbort(a)
-            | P::SelfWake(a, _) | P::Trigger(a, _) | P::SiblingAbort(a, _) => vec![a],
+            | P::SelfWake(a, _) | P::Trigger(a, _) | P::SiblingAbort(a, _) | P::JoinHosted(a, _) => vec![a],
             P::ReqReq(a, b) | P::ReqStream(a, b) | P::StreamReq(a, b) | P::StreamStream(a, b)
             | P::Join(a, b) | P::Select(a, b) | P::SpawnJoin(a, b) | P::SpawnAfter(a, b) | P::Burst(a, b) | P::Channel(a, b)
             | P::Unordered(a, b) | P::JoinTwice(a, b) | P::MixedNotify(a, b) | P::AbortSpawned(a, b) | P::SelfAbort(a, b)
